@@ -158,6 +158,13 @@ func checkC14(c *c14Case, rec *ev.Recorder) (fl *failure, digest string) {
 					continue
 				}
 				got := rs.Validate(insts[i]) == nil
+				// Go re-randomises map iteration on every range statement: repeat the call a few
+				// times so that an order-dependent verdict shows within one history step
+				for rep := 0; rep < 6; rep++ {
+					if again := rs.Validate(insts[i]) == nil; again != got {
+						return failf("step %d: validating instance %d twice in a row gives accept=%v then %v (verdict depends on map iteration order?)\n doc: %s\n instance: %s", step, i, got, again, rootText, c.Instances[i].JSON())
+					}
+				}
 				if seenVerdict[i] && firstVerdict[i] != got {
 					return failf("step %d: validating instance %d again gives accept=%v, before it was %v\n doc: %s\n instance: %s", step, i, got, firstVerdict[i], rootText, c.Instances[i].JSON())
 				}
